@@ -24,7 +24,7 @@ func VerifC04UploadDownload() {
 	vBudget(200000000)
 	vUnwind(100000)
 	meta, blob := vRepoStores()
-	stores := vCtxStoresAll(meta, meta, blob)
+	stores := vCtxStoresKind(meta, meta, blob, vChoose("storeWithCRC", 2) == 1) // plain or checksummed metadata writes
 	ctx := context.Background()
 	vAssert(CreateRepo(model.RepoDescriptor{Name: "r", Description: "d", Contributor: model.Contributor{Name: "n", Email: "e@x.io"}}, stores) == nil, "create-repo")
 	src := newVStore("src")
